@@ -16,6 +16,7 @@ import (
 
 	"mellium.im/xmpp/verifharness/internal/ev"
 	"mellium.im/xmpp/verifharness/internal/gen"
+	"mellium.im/xmpp/verifharness/internal/wire"
 	"mellium.im/xmpp/verifharness/internal/xt"
 )
 
@@ -392,8 +393,12 @@ func genACase(t *rapid.T) *acase {
 				}
 			}
 			c.steps = append(c.steps, s)
-		case k <= 19:
+		case k == 18:
 			c.steps = append(c.steps, step{kind: "leave"})
+		case k == 19:
+			// the sending direction stops working while the peer keeps talking:
+			// the application closes its output stream, or writes start to fail
+			c.steps = append(c.steps, step{kind: rapid.SampledFrom([]string{"appclose", "writefail"}).Draw(t, "outfault")})
 		default:
 			c.steps = append(c.steps, step{kind: "raw", name: "raw", input: rapid.SampledFrom(rawPieces).Draw(t, "raw")})
 		}
@@ -571,6 +576,16 @@ func runACase(c *acase, fail func(format string, args ...any)) (res aresult, inc
 			break
 		}
 		switch st.kind {
+		case "appclose":
+			e.guardGo("application closes its output stream", func() { _ = s.Close() })
+			logf("step %d: the application called Session.Close()", i)
+			res.classes = append(res.classes, "A:app-close-then-more-input")
+			continue
+		case "writefail":
+			e.sv.Conn.FailWrites(wire.ErrInjected)
+			logf("step %d: from now on every write to the connection fails", i)
+			res.classes = append(res.classes, "A:writes-fail-then-more-input")
+			continue
 		case "leave":
 			// the application leaves the room it joined (if it did)
 			e.mu.Lock()
